@@ -238,6 +238,10 @@ func activeRel() int {
 	return 21
 }
 
+// packages of the quick run-time cross-check
+var quickCross = map[string]bool{"fmt": true, "os": true, "log": true, "flag": true, "strings": true, "math": true, "io": true,
+	"sort": true, "errors": true, "time": true, "bufio": true, "bytes": true, "strconv": true, "sync": true, "os/signal": true, "log/slog": true}
+
 func runtimeCross(c *fw.Ctx, fs []*bindfacts.Facts, only *replayCase) error {
 	t0 := time.Now()
 	rel := activeRel()
@@ -268,6 +272,9 @@ func runtimeCross(c *fw.Ctx, fs []*bindfacts.Facts, only *replayCase) error {
 				continue
 			}
 			if only != nil && (only.Key != e.Key || only.Name != e.Name || only.Table != e.Table) {
+				continue
+			}
+			if only == nil && c.Quick() && !quickCross[e.KeyPath] {
 				continue
 			}
 			tab := map[string]string{"stdlib": "stdlib.Symbols", "syscall": "ysyscall.Symbols", "unrestricted": "yunrestricted.Symbols", "unsafe": "yunsafe.Symbols"}[e.Table]
